@@ -135,14 +135,15 @@ def handle : List String → Verdict
       -- the function used by the branch taken must be defined before the <button / <span that calls it
       let fnA := "function __templ_fixA"
       let fnB := "function __templ_fixB"
-      let needB := !c
+      let fnC := "function __templ_fixC"
+      let needC := !c
       let okA := match idx fnA, idx "<span" with | some a, some s => a < s | _, _ => false
-      let okB := !needB || (match idx fnB, idx "<button" with | some b, some t => b < t | _, _ => false)
+      let okB := !needC || (match idx fnC, idx "<button" with | some b, some t => b < t | _, _ => false)
       let okNested := !(c && d) || (match idx fnB, idx "<button" with | some b, some t => b < t | _, _ => false)
       let styleBefore := match idx "<style", idx "<button" with | some s, some t => s < t | _, _ => false
       let _ := has
       { predfail := if okA && okB && okNested && styleBefore then none else
-          some s!"hoisting: fixA defined before use={okA} fixB (else branch)={okB} nested={okNested} style before element={styleBefore}",
+          some s!"hoisting: fixA defined before use={okA} fixC (only in an else branch)={okB} nested={okNested} style before element={styleBefore}",
         nontrivial := true, tags := ["hoist"], sig := "hoist" }
     | none => .badOp
   | _ => .badOp
